@@ -872,3 +872,73 @@ def synth_digits_only(name, rng, k=6):
             if isinstance(cc, str) and cc not in out:
                 out.append(cc)
     return out
+
+
+def registry_probe_inputs(name, rng, k=40):
+    """Strings shaped like the module's numbers that start with prefixes taken from the registry file the module
+    consumes (entries of every nesting depth, plus values just outside their children), followed by random or
+    extreme tails.  Validity is not required: these probe how the module deals with every branch of its registry."""
+    mod = get_module(name)
+    try:
+        src = open(mod.__file__, encoding='utf-8').read()
+    except Exception:  # noqa: B902
+        return []
+    m = re.search(r"numdb\.get\('([^']+)'\)", src)
+    if not m:
+        return []
+    from vm import datfile as D
+    path = os.path.join(REPO, 'stdnum', m.group(1) + '.dat')
+    if not os.path.exists(path):
+        return []
+    roots, entries = D.parse_text(open(path, encoding='utf-8').read(), collect_errors=[])
+    if not entries:
+        return []
+    templates = []
+    for v in corpus(name, limit=3, rng=rng):
+        try:
+            c = mod.compact(v)
+        except Exception:  # noqa: B902
+            continue
+        if isinstance(c, str) and c:
+            templates.append(c)
+    if not templates:
+        return []
+    alphabet = D.alphabet_of(entries)
+    out = []
+    with_children = [e for e in entries if e.children]
+    picks = rng.sample(entries, min(len(entries), k)) + rng.sample(with_children, min(len(with_children), k))
+    for e in picks:
+        prefix = ''
+        p = e.parent
+        chain = []
+        while p is not None:
+            chain.append(p)
+            p = p.parent
+        for a in reversed(chain):
+            prefix += a.ranges[0][0]
+        lo, hi = rng.choice(e.ranges)
+        heads = [prefix + lo, prefix + hi]
+        if e.children:
+            # a value next to / outside the registered children
+            ch = rng.choice(e.children)
+            clo, chi = rng.choice(ch.ranges)
+            for s in (D.step(chi, alphabet, 1), D.step(clo, alphabet, -1), alphabet[-1] * len(clo), alphabet[0] * len(clo)):
+                if s:
+                    heads.append(prefix + lo + s)
+        for head in heads:
+            for t in templates[:2]:
+                pos = [i for i, c in enumerate(t) if c.isalnum()]
+                if len(head) > len(pos):
+                    continue
+                s = list(t)
+                for c, i in zip(head, pos):
+                    s[i] = c
+                for tail_mode in ('keep', 'max', 'zero'):
+                    s2 = list(s)
+                    for i in pos[len(head):]:
+                        if tail_mode == 'max':
+                            s2[i] = alphabet[-1] if s2[i].upper() in alphabet or s2[i].isalnum() else s2[i]
+                        elif tail_mode == 'zero':
+                            s2[i] = alphabet[0]
+                    out.append(''.join(s2))
+    return list(dict.fromkeys(out))
